@@ -4,6 +4,7 @@ import (
 	"fmt"
 	"strconv"
 	"strings"
+	"sync"
 	"sync/atomic"
 
 	"github.com/ohler55/slip"
@@ -143,7 +144,20 @@ func slotExpr(v, slot string) string {
 	return fmt.Sprintf("(if (slot-exists-p %s '%s) (if (slot-boundp %s '%s) (list 'v (slot-value %s '%s)) 'unb) 'none)", v, slot, v, slot, v, slot)
 }
 
+var helperOnce sync.Once
+
+// dumpExpr: (c12-dump v), a Lisp helper defined once per process that returns
+// the state of every slot of v (keeps the programs short: reading dominates).
 func dumpExpr(v string) string {
+	helperOnce.Do(func() {
+		if _, err := lisp.Eval("(defun c12-dump (v) " + dumpText("v") + ")"); err != nil {
+			panic("harness: cannot define c12-dump: " + err.String())
+		}
+	})
+	return "(c12-dump " + v + ")"
+}
+
+func dumpText(v string) string {
 	var b strings.Builder
 	b.WriteString("(list")
 	for _, sl := range slotNames {
